@@ -122,8 +122,9 @@ def check_state(desc, sc, pats, flagsets, res, bash=True, names_tag='std'):
 
 
 ODD_TREE = ['a\\', 'b', 'd\\/', 'd\\/x', '*', '[', 'a]', '!(', '{a,b}', 'a|b', '~', '-a', 'sp ace', 'e/', 'e/a\\', 'e/*', '.h\\',
-            '@(a/', '@(a/b)', '+(x/', '+(x/y)', '@(a/c']
-ODD_PATS = ['*', '?*', '**', '[!a]*', '*/', '*/*', '**/*', '??', '*\\\\', 'e/*', 'e//*', '*//', 'e//', '**//*', 'e///a\\\\', './/e//*']
+            '@(a/', '@(a/b)', '+(x/', '+(x/y)', '@(a/c', 'b\n', 'e/b\n', 'b\n\n']
+ODD_PATS = ['*', '?*', '**', '[!a]*', '*/', '*/*', '**/*', '??', '*\\\\', 'e/*', 'e//*', '*//', 'e//', '**//*', 'e///a\\\\', './/e//*',
+            '?', '[ab]', 'b', 'e/?', '*/[ab]', '**/b', 'b?', '[ab][!a]']
 ODD_FLAGS = ['GE', 'GEO', 'GDE', 'GDEO', 'GEK', 'E', 'GEOK']
 # without EXTGLOB `@(`, `+(` ... are ordinary text (and `*`, `?` ordinary wildcards) even when a `/` and a `)` follow
 ODD_PATS_NOEXT = ['@(a/b)', '*(a/b)', '?(a/b)', '+(x/y)', '@(a/*', '*/b)', '@(a/b', '!(/b)', '*(*/*)', '@(a/c|b)']
